@@ -12,6 +12,10 @@ package main
 //                        binding paths
 //   literal-vs-eq        `S == L` and `match (S) { L => true, zz => false }` agree (or both fail)
 //   match-laws           fixed small programs from the property text with their expected output
+//   subject-side-effects subjects with a side effect (i++, assignments, calls that count / trace / push, nested
+//                        matches) x cases whose selected one is the 1st .. last or none, the earlier patterns
+//                        matching what a re-evaluation of the subject would yield; oracle: a reference that
+//                        evaluates the subject exactly once per match
 
 import (
 	"fmt"
@@ -729,6 +733,395 @@ func c19JSON(v interface{}) (string, bool) {
 	return "", false
 }
 
+// ---------------------------------------------------------------- subjects with side effects
+
+// the program state the side-effecting subjects work on
+type c19St struct {
+	i, x, cnt, k float64
+	s            string
+	arr, lg      []interface{}
+	out          strings.Builder // what the program has printed so far
+}
+
+func (st *c19St) clone() *c19St {
+	c := &c19St{i: st.i, x: st.x, cnt: st.cnt, k: st.k, s: st.s}
+	c.arr = append([]interface{}{}, st.arr...)
+	c.lg = append([]interface{}{}, st.lg...)
+	c.out.WriteString(st.out.String())
+	return c
+}
+
+func (st *c19St) show() string {
+	return fmt.Sprintf("st %s %s %s %s %s %s %s\n", c19Pretty(st.i, false), c19Pretty(st.x, false), c19Pretty(st.cnt, false), c19Pretty(st.k, false),
+		st.s, c19Pretty(st.arr, false), c19Pretty(st.lg, false))
+}
+
+const c19SEFuncs = "function bump() { cnt = cnt + 1; return cnt }\n" +
+	"function tr(v) { print \"eval\", v\n return v }\n" +
+	"function psh(v) { lg.push(v); return v }\n"
+const c19SEShow = "print \"st\", i, x, cnt, k, s, arr, lg\n"
+
+// a subject expression and what ONE evaluation of it does to the state and yields
+type c19SESubj struct {
+	text string
+	eval func(st *c19St) interface{}
+}
+
+func (st *c19St) bump() float64 { st.cnt++; return st.cnt }
+func (st *c19St) tr(v interface{}) interface{} {
+	st.out.WriteString("eval " + c19Pretty(v, false) + "\n")
+	return v
+}
+
+func c19SESubject(r *rand.Rand) c19SESubj {
+	type cv struct {
+		text string
+		val  interface{}
+	}
+	consts := []cv{{"0", float64(0)}, {"1", float64(1)}, {"2.5", 2.5}, {`"a"`, "a"}, {`"1"`, "1"}, {"null", nil}, {"true", true},
+		{"[1, 2]", []interface{}{float64(1), float64(2)}}, {"[]", []interface{}{}}, {`[[0], "b"]`, []interface{}{[]interface{}{float64(0)}, "b"}}}
+	c := pick(r, consts)
+	q := []interface{}{float64(5), float64(6), float64(7)}
+	inner := func(v float64) interface{} {
+		switch v {
+		case 0:
+			return "a"
+		case 1:
+			return "b"
+		}
+		return "c"
+	}
+	all := []c19SESubj{
+		{"i++", func(st *c19St) interface{} { st.i++; return st.i - 1 }},
+		{"++i", func(st *c19St) interface{} { st.i++; return st.i }},
+		{"i--", func(st *c19St) interface{} { st.i--; return st.i + 1 }},
+		{"--i", func(st *c19St) interface{} { st.i--; return st.i }},
+		{"i = i + 1", func(st *c19St) interface{} { st.i++; return st.i }},
+		{"x += 1", func(st *c19St) interface{} { st.x++; return st.x }},
+		{"x -= 2", func(st *c19St) interface{} { st.x -= 2; return st.x }},
+		{"x *= 2", func(st *c19St) interface{} { st.x *= 2; return st.x }},
+		{"x = x + i++", func(st *c19St) interface{} { st.x += st.i; st.i++; return st.x }},
+		{"bump()", func(st *c19St) interface{} { return st.bump() }},
+		{"bump() + bump()", func(st *c19St) interface{} { a := st.bump(); return a + st.bump() }},
+		{"tr(" + c.text + ")", func(st *c19St) interface{} { return st.tr(c.val) }},
+		{"psh(" + c.text + ")", func(st *c19St) interface{} { st.lg = append(st.lg, c.val); return c.val }},
+		{"tr(i++)", func(st *c19St) interface{} { st.i++; return st.tr(st.i - 1) }},
+		{"tr(bump())", func(st *c19St) interface{} { return st.tr(st.bump()) }},
+		{"psh(tr(++i))", func(st *c19St) interface{} { st.i++; st.tr(st.i); st.lg = append(st.lg, st.i); return st.i }},
+		{"[i++, i++]", func(st *c19St) interface{} { st.i += 2; return []interface{}{st.i - 2, st.i - 1} }},
+		{"[bump(), " + c.text + "]", func(st *c19St) interface{} { return []interface{}{st.bump(), c.val} }},
+		{"[tr(1), [i++]]", func(st *c19St) interface{} {
+			st.tr(float64(1))
+			st.i++
+			return []interface{}{float64(1), []interface{}{st.i - 1}}
+		}},
+		{"q[k++]", func(st *c19St) interface{} {
+			st.k++
+			if int(st.k-1) < len(q) {
+				return q[int(st.k-1)]
+			}
+			return nil
+		}},
+		{"[q[k++], 0]", func(st *c19St) interface{} {
+			st.k++
+			if int(st.k-1) < len(q) {
+				return []interface{}{q[int(st.k-1)], float64(0)}
+			}
+			return []interface{}{nil, float64(0)}
+		}},
+		{"arr.pop()", func(st *c19St) interface{} {
+			if len(st.arr) == 0 {
+				return nil
+			}
+			v := st.arr[len(st.arr)-1]
+			st.arr = st.arr[:len(st.arr)-1]
+			return v
+		}},
+		{"arr.popfirst()", func(st *c19St) interface{} {
+			if len(st.arr) == 0 {
+				return nil
+			}
+			v := st.arr[0]
+			st.arr = append([]interface{}{}, st.arr[1:]...)
+			return v
+		}},
+		{"s = s + \"x\"", func(st *c19St) interface{} { st.s += "x"; return st.s }},
+		{"match (i++) { 0 => \"a\", 1 => \"b\", z => \"c\" }", func(st *c19St) interface{} { st.i++; return inner(st.i - 1) }},
+		{"match (tr(i)) { 0 => bump(), z => z + bump() }", func(st *c19St) interface{} {
+			st.tr(st.i)
+			if st.i == 0 {
+				return st.bump()
+			}
+			return st.i + st.bump()
+		}},
+		{"match ([i++, bump()]) { [0, c] => c, [a, c] => { i = i + 10 } }", func(st *c19St) interface{} {
+			st.i++
+			c := st.bump()
+			if st.i-1 == 0 {
+				return c
+			}
+			st.i += 10
+			return nil
+		}},
+	}
+	return pick(r, all)
+}
+
+// patFor: a pattern that matches v (literals where v can be written as one and
+// lits is wanted, else names)
+func (g *c19Gen) patFor(v interface{}, lits float64, depth int) *c19Pat {
+	if arr, ok := v.([]interface{}); ok && depth < 3 && chance(g.r, 0.5+lits/2) {
+		p := &c19Pat{kind: "arr"}
+		for _, e := range arr {
+			p.items = append(p.items, g.patFor(e, lits, depth+1))
+		}
+		return p
+	}
+	if l, ok := g.litFor(v); ok && chance(g.r, lits) {
+		return &c19Pat{kind: "lit", lit: l}
+	}
+	g.nname++
+	return &c19Pat{kind: "ident", name: fmt.Sprintf("p%d", g.nname)}
+}
+
+// noMatch: a pattern that does not match v and does not fail on it, preferably
+// one that matches what the subject would yield if it were evaluated again
+func (g *c19Gen) noMatch(v interface{}, decoys []interface{}) *c19Pat {
+	for tries := 0; tries < 30; tries++ {
+		var p *c19Pat
+		switch g.r.Intn(6) {
+		case 0, 1, 2:
+			p = g.patFor(pick(g.r, decoys), 1, 0)
+		case 3:
+			switch x := v.(type) {
+			case float64:
+				p = g.patFor(x+float64(1+g.r.Intn(3)), 1, 0)
+			case []interface{}:
+				p = g.patFor(append(append([]interface{}{}, x...), nil), 0.5, 0) // one element too many
+			default:
+				p = &c19Pat{kind: "lit", lit: pick(g.r, c19Lits[:len(c19Lits)-2])}
+			}
+		case 4:
+			p = &c19Pat{kind: "lit", lit: pick(g.r, c19Lits[:len(c19Lits)-2])}
+		default:
+			p = &c19Pat{kind: "arr"}
+			for n := g.r.Intn(3); n > 0; n-- {
+				p.items = append(p.items, g.patFor(pick(g.r, decoys), 0.5, 1))
+			}
+		}
+		if c19Match(p, v, nil, map[string][]int{}) == 0 {
+			return p
+		}
+	}
+	p := &c19Pat{kind: "arr"} // five elements: longer than any subject of this family
+	for n := 0; n < 5; n++ {
+		p.items = append(p.items, g.patFor(nil, 0, 1))
+	}
+	return p
+}
+
+func c19SideEffects(r *rand.Rand, emit func(Case)) {
+	g := &c19Gen{r: r}
+	st := &c19St{i: pick(r, []float64{0, 0, 1, 2, 5}), x: pick(r, []float64{0, 1, 3}), cnt: pick(r, []float64{0, 0, 1}), k: pick(r, []float64{0, 0, 1}),
+		s: pick(r, []string{"", "a"}), arr: []interface{}{float64(1), float64(2), float64(3), "z"}[:1+r.Intn(4)], lg: []interface{}{}}
+	init := fmt.Sprintf("i = %v; x = %v; cnt = %v; k = %v; s = %s; arr = %s; lg = []; q = [5, 6, 7]\n", st.i, st.x, st.cnt, st.k, mustStrLit(st.s), c19Pretty(st.arr, true))
+	subj := c19SESubject(r)
+	// the value of the one evaluation, and what a second and a third evaluation would give
+	s1 := st.clone()
+	v := subj.eval(s1)
+	s2 := s1.clone()
+	d1 := subj.eval(s2)
+	d2 := subj.eval(s2.clone())
+	decoys := []interface{}{d1, d1, d2}
+	if chance(r, 0.3) {
+		decoys = append(decoys, subj.eval(st.clone())) // the value itself: forces other ways of not matching
+	}
+
+	type kase struct {
+		pats  []*c19Pat
+		body  int // 0 constant, 1 the state, 2 a bound name, 3 block printing state and names, 4 a call with a side effect
+		show  []string
+		never bool // holds a pattern that is not allowed / fails when tried: placed after the selected case only
+	}
+	ncase := r.Intn(6)
+	target := ncase // == ncase: no case matches
+	if ncase > 0 && chance(r, 0.8) {
+		target = r.Intn(ncase)
+	}
+	cases := make([]kase, ncase)
+	for j := range cases {
+		k := &cases[j]
+		m := 1 + r.Intn(3)
+		hit := -1
+		if j == target {
+			hit = r.Intn(m)
+		}
+		for a := 0; a < m; a++ {
+			switch {
+			case a == hit:
+				k.pats = append(k.pats, g.patFor(v, 0.7, 0))
+			case j > target && chance(r, 0.5):
+				// after the selected case anything goes: never looked at
+				switch r.Intn(4) {
+				case 0:
+					k.pats = append(k.pats, &c19Pat{kind: "bad", text: pick(r, c19BadPats)})
+					k.never = true
+				case 1:
+					k.pats = append(k.pats, &c19Pat{kind: "lit", lit: c19Lits[len(c19Lits)-1]})
+					k.never = true
+				default:
+					k.pats = append(k.pats, g.patFor(pick(r, []interface{}{v, d1, d2}), 0.6, 0))
+				}
+			default:
+				k.pats = append(k.pats, g.noMatch(v, decoys))
+			}
+		}
+		names := map[string]bool{}
+		for _, p := range k.pats {
+			p.names(names)
+		}
+		for n := range names {
+			k.show = append(k.show, n)
+		}
+		sort.Strings(k.show)
+		k.body = r.Intn(5)
+		if k.body == 2 && len(k.show) == 0 {
+			k.body = 1
+		}
+	}
+
+	// program text
+	var sb strings.Builder
+	sb.WriteString(c19SEFuncs)
+	var mt strings.Builder
+	mt.WriteString("match (" + subj.text + ") {\n")
+	for j, k := range cases {
+		texts := make([]string, len(k.pats))
+		for a, p := range k.pats {
+			texts[a] = p.render()
+		}
+		head := "    " + strings.Join(texts, ", ") + " => "
+		switch k.body {
+		case 0:
+			fmt.Fprintf(&mt, "%s\"v%d\"", head, j)
+		case 1:
+			mt.WriteString(head + "[i, x, cnt, k]")
+		case 2:
+			mt.WriteString(head + k.show[len(k.show)-1])
+		case 3:
+			fmt.Fprintf(&mt, "%s{ print %s }", head, strings.Join(append([]string{fmt.Sprintf("\"b%d\"", j), "i", "x", "cnt", "k"}, k.show...), ", "))
+		default:
+			mt.WriteString(head + "bump()")
+		}
+		if j < len(cases)-1 && (k.body != 3 || chance(r, 0.5)) {
+			mt.WriteString(",")
+		}
+		mt.WriteString("\n")
+	}
+	mt.WriteString("  }\n")
+	nrec := 1
+	where := r.Intn(4)
+	var files []File
+	switch where {
+	case 0: // directly in BEGIN
+		sb.WriteString("BEGIN {\n  " + init + "  r = " + mt.String() + "  print \"r\", r\n  " + c19SEShow + "}\n")
+	case 1: // inside a function
+		sb.WriteString("function sel() {\n  return " + mt.String() + "}\nBEGIN {\n  " + init + "  r = sel()\n  print \"r\", r\n  " + c19SEShow + "}\n")
+	case 2: // as a statement of its own
+		sb.WriteString("BEGIN {\n  " + init + "  " + mt.String() + "  " + c19SEShow + "}\n")
+	default: // once per record, the state carrying over
+		nrec = 2 + r.Intn(3)
+		files = []File{{Name: "in.json", Data: []byte("[" + strings.TrimSuffix(strings.Repeat("0,", nrec), ",") + "]")}}
+		sb.WriteString("BEGIN { " + strings.TrimSuffix(init, "\n") + " }\n{\n  r = " + mt.String() + "  print \"r\", r\n  " + c19SEShow + "}\n")
+	}
+	prog := sb.String()
+
+	// the reference: per evaluation of the match ONE evaluation of the subject, then the first case, in
+	// source order, one of whose alternatives (in order) matches that value
+	cur := st.clone()
+	wantClass := "ok"
+	firstSel := -2
+	for rec := 0; rec < nrec && wantClass == "ok"; rec++ {
+		val := subj.eval(cur)
+		selected := -1
+		var bind map[string][]int
+	sel:
+		for j, k := range cases {
+			for _, p := range k.pats {
+				b := map[string][]int{}
+				switch c19Match(p, val, nil, b) {
+				case -1:
+					wantClass = "runtime"
+					break sel
+				case 1:
+					selected, bind = j, b
+					break sel
+				}
+			}
+		}
+		if rec == 0 {
+			firstSel = selected
+		}
+		if wantClass != "ok" {
+			break
+		}
+		var res interface{}
+		if selected >= 0 {
+			k := cases[selected]
+			name := func(n string) interface{} {
+				if p, ok := bind[n]; ok {
+					return c19At(val, p)
+				}
+				return c19Unset{}
+			}
+			switch k.body {
+			case 0:
+				res = fmt.Sprintf("v%d", selected)
+			case 1:
+				res = []interface{}{cur.i, cur.x, cur.cnt, cur.k}
+			case 2:
+				res = name(k.show[len(k.show)-1])
+			case 3:
+				line := fmt.Sprintf("b%d %s %s %s %s", selected, c19Pretty(cur.i, false), c19Pretty(cur.x, false), c19Pretty(cur.cnt, false), c19Pretty(cur.k, false))
+				for _, n := range k.show {
+					line += " " + c19Pretty(name(n), false)
+				}
+				cur.out.WriteString(line + "\n")
+			default:
+				res = cur.bump()
+			}
+		}
+		if where != 2 {
+			cur.out.WriteString("r " + c19Pretty(res, false) + "\n")
+		}
+		cur.out.WriteString(cur.show())
+	}
+	want := cur.out.String()
+	base := c19Oracle(want, wantClass)
+	emit(Case{Req: RunReq(prog, nil, files, false), Fields: []string{"class", "out"},
+		Meta: metaProg(prog, "subject", subj.text, "row", "subject "+subj.text, "col", fmt.Sprintf("selected %s of %d", c19Ordinal(firstSel, ncase), ncase),
+			"expected", fmt.Sprintf("first evaluation: value %s, case %d of %d; class %s", c19Pretty(v, true), firstSel, ncase, wantClass)),
+		Oracle: func(i Resp) string {
+			if w := base(i); w != "" {
+				return "the subject is evaluated exactly once per match and the first matching case wins: " + w
+			}
+			return ""
+		},
+		NonTrivial: func(i Resp) bool { return i["class"] == "ok" || i["class"] == "runtime" }})
+}
+
+func c19Ordinal(sel, n int) string {
+	switch {
+	case sel == -2:
+		return "error"
+	case sel < 0:
+		return "none"
+	case sel == n-1 && n > 1:
+		return "last"
+	}
+	return fmt.Sprint(sel + 1)
+}
+
 // ---------------------------------------------------------------- laws
 
 type c19Law struct{ prog, want, class string }
@@ -772,6 +1165,13 @@ var c19Laws = []c19Law{
 	{"BEGIN { r = match ([1, 2]) { [a, b] => [b, a] }\n print r, a is unknown }", "[2, 1] true\n", "ok"},
 	{"BEGIN { for (i = 0; i < 4; i++) print match (i) { 0 => \"zero\", 1, 2 => { } n => n * 2 } }", "zero\nnull\nnull\n6\n", "ok"},
 	{"{ print match ($) { [k, v] => k + \"=\" + v, s => s } }", "a=1\nplain\n{\"o\": 1}\n", "ok"},
+	// the subject is evaluated once, whichever case is selected
+	{"BEGIN { i = 0\n r = match (i++) { 2 => \"two\", 1 => \"one\", 0 => \"zero\", z => \"other\" }\n print r, i }", "zero 1\n", "ok"},
+	{"function id() { n = n + 1; return n }\nBEGIN { n = 0\n r = match (id()) { 3 => \"third\", 2 => \"second\", 1 => \"first\" }\n print r, n }", "first 1\n", "ok"},
+	{"BEGIN { q = [5, 6, 7]; k = 0\n r = match ([q[k++], 0]) { [7, z] => \"seven\", [6, z], [9, z] => \"six\", [5, z] => \"five\" }\n print r, k }", "five 1\n", "ok"},
+	{"function t(v) { print \"eval\", v\n return v }\nBEGIN { print match (t(4)) { 1, 2 => \"a\", 3 => \"b\" } }", "eval 4\nnull\n", "ok"},
+	{"BEGIN { i = 0\n match (i++) { }\n print i }", "1\n", "ok"},
+	{"BEGIN { i = 0\n r = match (++i) { 1 => i, 2 => \"again\" }\n print r, i }", "1 1\n", "ok"},
 }
 
 func init() {
@@ -791,6 +1191,15 @@ func init() {
 		Gen: func(r *rand.Rand, tier string, emit func(Case)) {
 			for i, n := 0, tierN(tier, 8000, 100000); i < n; i++ {
 				c19Structured(r, emit)
+			}
+		},
+	})
+	register(Family{
+		Name: "subject-side-effects", Prop: "C19",
+		Rule: "27 subjects with a side effect (i++ ++i i-- --i, i = i + 1, x += 1, x -= 2, x *= 2, calls that bump a global counter / print a trace line / push to an array, nested calls, array literals of those, q[k++], arr.pop(), arr.popfirst(), string append, nested matches as subject) on a random initial state x 0-5 cases of 1-3 alternatives built so that the selected case is the 1st .. last or none: the alternatives before the matching one are patterns (literals, names, nested array patterns) for the values a 2nd and 3rd evaluation of the subject WOULD yield, near values, unrelated ones; after the selected case also not-allowed and failing patterns; bodies: constant, the state, a bound name, a block printing state and names, a call with a side effect; in BEGIN, inside a function, as a statement, or once per record over 2-4 records with the state carried over; afterwards r and the whole state are printed; oracle: a Go reference that evaluates the subject ONCE per match (trace lines and every side effect exactly once) and selects with the reference matcher",
+		Gen: func(r *rand.Rand, tier string, emit func(Case)) {
+			for i, n := 0, tierN(tier, 8000, 100000); i < n; i++ {
+				c19SideEffects(r, emit)
 			}
 		},
 	})
